@@ -226,6 +226,11 @@ def w_two_grids(ctx, rng, i):
     ctx.case(("grids", n, n_pol, fa, fb), sample=dict(n=n, fs_sequence=[fa, fb, fa]) if i < 2 else None)
 
 
+def FORM_TWINS():
+    import opticomlib.devices as dv
+    return [(dv, ["DM", "FIBER"])]
+
+
 WORKLOADS = [
     Workload("dm", w_dm, 1000, 60000),
     Workload("fiber", w_fiber, 1000, 60000),
